@@ -88,6 +88,8 @@ def gen_value(ch, name, kind):
     if kind == "int":
         return ch.choice([0, 1, 2, 7, 1000, 123456789])
     if kind == "str":
+        if name in ("docmark_alt", "predocmark_alt") and ch.bool(1, 3):
+            return ""           # switched off: a blank value is a value
         if name in ("docmark", "predocmark", "docmark_alt", "predocmark_alt"):
             return {"docmark": ["!", "<", "d"], "predocmark": [">", "p", "^"], "docmark_alt": ["*", "#", "D"],
                     "predocmark_alt": ["|", "P", "~"]}[name][ch.int(3)]
@@ -204,6 +206,32 @@ def render(fmt, options, kinds, extra_lines=(), override=None):
     return {"project.md": body}, {"config": ";".join(parts)}
 
 
+FLAGS = {"src_dir": ("-d", "list"), "page_dir": ("-p", "one"), "output_dir": ("-o", "one"), "css": ("-s", "one"),
+         "revision": ("-r", "one"), "exclude": ("--exclude", "list"), "exclude_dir": ("--exclude_dir", "list"),
+         "extensions": ("-e", "list"), "macro": ("-m", "list"), "warn": ("-w", "flag"), "force": ("-f", "flag"),
+         "graph": ("-g", "flag"), "search": ("--no-search", "flag"), "quiet": ("-q", "flag"), "dbg": ("--debug", "flag"),
+         "include": ("-I", "list"), "externalize": ("--externalize", "flag"), "config": ("--config", "one")}
+
+
+def argv_of(cli):
+    """The command line that expresses the given values (None if one of them has no flag)."""
+    out = []
+    for k, v in cli.items():
+        if k not in FLAGS:
+            return None
+        flag, how = FLAGS[k]
+        if how == "flag":
+            if v != (k != "search"):
+                return None          # a flag can only say one thing
+            out.append(flag)
+        elif how == "list":
+            for x in (v if isinstance(v, list) else [v]):
+                out += [flag, str(x)]
+        else:
+            out += [flag, str(v)]
+    return out
+
+
 def load(files, cli, cwd_choice):
     """Run load_settings + parse_arguments in a fresh sandbox.  -> (settings dict | exception, output)"""
     import ford
@@ -215,9 +243,20 @@ def load(files, cli, cwd_choice):
         os.chdir({"proj": pdir, "root": root, "else": root / "elsewhere"}[cwd_choice])
         try:
             with contextlib.redirect_stdout(buf), contextlib.redirect_stderr(buf):
-                text = (pdir / "project.md").read_text()
-                docs, data = ford.load_settings(text, pdir, "project.md")
-                data, docs = ford.parse_arguments(dict(cli), docs, data, pdir)
+                argv = argv_of(cli)
+                if argv is not None:
+                    # the real front end: argparse + initialize(), as `ford <options> path/to/project.md`
+                    import sys
+                    old_argv = sys.argv
+                    sys.argv = ["ford"] + argv + [os.path.relpath(pdir / "project.md")]
+                    try:
+                        data, docs = ford.initialize()
+                    finally:
+                        sys.argv = old_argv
+                else:
+                    text = (pdir / "project.md").read_text()
+                    docs, data = ford.load_settings(text, pdir, "project.md")
+                    data, docs = ford.parse_arguments(dict(cli), docs, data, pdir)
             d = dataclasses.asdict(data)
         except BaseException as e:      # SystemExit included
             return e, buf.getvalue(), str(pdir)
@@ -255,6 +294,8 @@ def gen_case(ch: Chooser, excl=()):
     chosen = ch.shuffle(names)[: ch.count(1, 8)]
     if ch.bool(1, 10):
         chosen = list(dict.fromkeys(chosen + ["favicon"]))
+    if ch.bool(1, 10):
+        chosen = list(dict.fromkeys(chosen + [ch.choice(["docmark_alt", "predocmark_alt"])]))
     if ch.bool(1, 8):
         chosen = list(dict.fromkeys(chosen + ["exclude_dir", "output_dir"]))     # (derived: output_dir is appended to exclude_dir)
     options = {}
@@ -405,4 +446,8 @@ def check(case) -> Result:
                 if e.get(k) != want:
                     res.fail(f"path-not-relative-to-project:{fmt}", f"{fmt}: {k}={v!r} (cwd {case['cwd']}) gives {e.get(k)!r}, "
                                                                     f"expected {want!r}")
+            elif kinds[k] in ("bool", "int") and e.get(k) != v:
+                # a value given in the file (or through --config) and not on the command line is the effective value
+                res.fail(f"file-value-lost:{fmt}:{kinds[k]}", f"{fmt}: {k}={v!r} in the configuration, not on the command line, "
+                                                              f"but effective {e.get(k)!r}")
     return res
